@@ -192,7 +192,9 @@ class BasicDBusProtocol(protocol.Protocol):
                         log.msg('DBus Authentication failed: ' + str(e))
                         self.transport.loseConnection()
             else:
-                if len(self._buffer) > self.MAX_AUTH_LENGTH:
+                # the buffer may end with the first byte of the delimiter
+                # of a line of the maximum length
+                if len(self._buffer) > self.MAX_AUTH_LENGTH + 1:
                     return self.authMessageLengthExceeded(self._buffer)
 
     def fileDescriptorReceived(self, fd):
